@@ -1,6 +1,6 @@
 (* C17 Ill-formed definitions are rejected at expansion time: every class of static violation,
    at any position, makes the model of lexer() return Panic (is_ok = false). *)
-From LexVerif Require Import Base CharClass RangeMap Regex Spec Nfa Dfa NfaToDfa Codegen Driver DriverProofs.
+From LexVerif Require Import Base CharClass RangeMap Regex Parser ParserProofs Spec Nfa Dfa NfaToDfa Codegen Driver DriverProofs DefParser DefParserProofs.
 
 Theorem c17_mixed : forall benv mg d, mixed d = true -> compile benv mg d = Panic TagMixedRules.
 Proof. exact reject_mixed. Qed.
@@ -77,6 +77,34 @@ Theorem c17_unused_let_refuted :
     /\ is_ok (compile benv mg d) = true.
 Proof. exact unused_let_not_rejected. Qed.
 
+(* ---- malformed syntax: the model of the definition parser rejects ---- *)
+Theorem c17_missing_comma : forall r k rest, eoi_safe' r = true ->
+  k <> P_COMMA -> k <> P_EQ -> k <> P_FATARROW -> k <> P_GT ->
+  forall fuel, parse_fuel (print_re 0 r ++ TOther k :: rest) <= fuel ->
+  parse_rob fuel (print_re 0 r ++ TOther k :: rest) = None.
+Proof. exact reject_missing_comma. Qed.
+
+Theorem c17_unknown_keyword : forall fuel n kw rest,
+  name_eqb kw kw_let = false -> name_eqb kw kw_type = false -> name_eqb kw kw_rule = false ->
+  parse_tops fuel (S n) (DT (TIdent kw) :: rest) = None.
+Proof. exact reject_unknown_keyword. Qed.
+
+Theorem c17_let_without_eq : forall fuel v t rest, t <> TOther P_EQ ->
+  parse_rob fuel (TIdent kw_let :: TIdent v :: t :: rest) = None.
+Proof. exact reject_let_without_eq. Qed.
+
+Theorem c17_let_without_semi : forall fuel v r k rest, eoi_safe' r = true -> k <> P_SEMI ->
+  parse_fuel (print_re 0 r ++ TOther k :: rest) <= fuel ->
+  parse_rob fuel (TIdent kw_let :: TIdent v :: TOther P_EQ :: print_re 0 r ++ TOther k :: rest) = None.
+Proof. exact reject_let_without_semi. Qed.
+
+(* a malformed item anywhere inside a rule set makes the whole rule set (hence the definition) fail *)
+Theorem c17_malformed_in_body : forall good bad fuel n, forallb prob_ok good = true ->
+  parse_fuel (flat_map print_rob good ++ bad) <= fuel ->
+  parse_rob fuel bad = None -> bad <> [] ->
+  parse_robs fuel n (flat_map print_rob good ++ bad) = None.
+Proof. exact reject_in_body. Qed.
+
 Print Assumptions c17_mixed.
 Print Assumptions c17_dup_error_type.
 Print Assumptions c17_dup_top_var.
@@ -91,3 +119,8 @@ Print Assumptions c17_unknown_builtin_ruleset.
 Print Assumptions c17_diff_non_class_unnamed.
 Print Assumptions c17_diff_non_class_ruleset.
 Print Assumptions c17_unused_let_refuted.
+Print Assumptions c17_missing_comma.
+Print Assumptions c17_unknown_keyword.
+Print Assumptions c17_let_without_eq.
+Print Assumptions c17_let_without_semi.
+Print Assumptions c17_malformed_in_body.
